@@ -21,11 +21,12 @@ def body(ctx):
     VAL = Validator(ctx, prog)
     seen_val = set()
     f_readable = prog.method('Inner', 'handle_channel_readable')
-    for shape in shapes:
-        for nc in ncons:
+    # (shape, consumers, unread replies on A): the last configuration has the answer to A's call in flight still unread when the close arrives
+    for (shape, nc, pf) in [(sh_, nc_, 0) for sh_ in shapes for nc_ in ncons] + [('None', 1, 1)]:
+        if True:
             def pre(fs, a, b):
                 return [z3.Or(fs.is_method('Channel', 'Close'), fs.is_method('Channel', 'CloseOk')), fs.chan('Method') != 0]
-            fs, a, b, infoA, res = explore_step(ctx, ex, prog, shapeA=shape, consumersA=nc, pre=pre)
+            fs, a, b, infoA, res = explore_step(ctx, ex, prog, shapeA=shape, consumersA=nc, pre=pre, prefillA=pf)
             # pre-state snapshot from a fresh build (identical construction)
             for (s, w, rv) in res:
                 npaths += 1
@@ -41,9 +42,9 @@ def body(ctx):
                 conds = []
                 label = 'other'
                 # B must never be touched by a frame for another channel
-                b_untouched = (len(B['reply'].queue) == 0 and B['reply'].senders == 1 and all(len(cq.queue) == 0 and cq.senders == 1 for (_, cq) in B['consumers'].values())
+                b_untouched = (len(queue_msgs(B['reply'])) == 0 and B['reply'].senders == 1 and all(len(cq.queue) == 0 and cq.senders == 1 for (_, cq) in B['consumers'].values())
                                and z3.is_true(z3.simplify(eB[2])))
-                a_untouched = (len(A['reply'].queue) == 0 and A['reply'].senders == 1 and all(len(cq.queue) == 0 and cq.senders == 1 for (_, cq) in A['consumers'].values())
+                a_untouched = (len(queue_msgs(A['reply'])) == 0 and A['reply'].senders == 1 and all(len(cq.queue) == 0 and cq.senders == 1 for (_, cq) in A['consumers'].values())
                                and z3.is_true(z3.simplify(eA[2])))
                 a_gone = z3.is_false(z3.simplify(eA[2]))
                 b_gone = z3.is_false(z3.simplify(eB[2]))
